@@ -475,21 +475,31 @@ def _check_wiring(R, F, CG):
     if vc:
         rows = []
         # auth enabled ∧ (user none ∨ password none) ⇒ Err : check by path table on Result discriminant
-        from terms import enumerate_paths
+        from terms import enumerate_paths, path_constraints
+
+        def var_of(t):
+            if mentions(t, "rpc_server_user"):
+                return "user"
+            if mentions(t, "rpc_server_password"):
+                return "password"
+            if mentions(t, "enable_auth"):
+                return "auth"
+            return None
         bad = False
         n_err = 0
+        outcomes = {}
         for p in enumerate_paths(vc):
-            atoms = {}
-            for i, b in enumerate(p[:-1]):
-                be = bool_edge(vc, b, p[i + 1])
-                if be and be[1] is not None:
-                    atoms[show(be[0])] = be[1]
-            ea = [v for k, v in atoms.items() if "enable_auth" in k]
-            un = [v for k, v in atoms.items() if "rpc_server_user" in k and "is_none" in k]
-            pn = [v for k, v in atoms.items() if "rpc_server_password" in k and "is_none" in k]
+            cons = path_constraints(vc, p, var_of)
+            if cons is None:
+                continue
             is_err = _returns_err(vc, p)
-            if ea == [True] and (un == [True] or pn == [True]):
-                if not is_err:
+            for u in ("Some", "None"):
+                for pw in ("Some", "None"):
+                    if cons.get("auth", True) is True and cons.get("user", u) == u and cons.get("password", pw) == pw:
+                        outcomes.setdefault((u, pw), set()).add(is_err)
+        for (u, pw), oc in outcomes.items():
+            if u == "None" or pw == "None":
+                if False in oc:
                     bad = True
                 else:
                     n_err += 1
